@@ -524,6 +524,43 @@ EmailVerifyEnd(h, c, e) ==
        ELSE Redirect(PutS(DelS(h, "tfaTok"), "tfaAuthed", TRUE), IF e.kind = "totp" THEN "totpSetup" ELSE "smsSetup")
 
 \* application route behind authboss.Middleware2 -> lock.Middleware -> confirm.Middleware
+\* the GET pages (forms and status pages). e.k names the route; they change nothing by themselves
+\* (the global middlewares in front still act), but each sits behind the same guards as its POST twin
+GetPage(h, c, e) ==
+  LET k == e.k
+      open(mod, page) == IF Has(c, mod) THEN Page(h, page) ELSE RouteMissing(h)
+      guarded(mod, wrapKind, page, needSetup) ==
+        IF ~Has(c, mod) THEN RouteMissing(h)
+        ELSE LET m == AuthMW(h, TRUE, FALSE) IN
+             IF ~m.ok THEN Refuse(h, c)
+             ELSE IF wrapKind # NONE /\ EmailWrapBlocks(h, c)
+                  THEN Redirect(h, IF wrapKind = "totp" THEN "totpEmailVerify" ELSE "smsEmailVerify")
+             ELSE IF needSetup /\ h.rs.totpSetup = 0 THEN Fail(h)
+             ELSE Page(h, page)
+  IN
+  CASE k = "login" -> open("auth", "login")
+    [] k = "register" -> open("register", "register")
+    [] k = "recover" -> open("recover", "recoverStart")
+    [] k = "recoverEnd" -> IF ~Has(c, "recover") THEN RouteMissing(h) ELSE IF c.json THEN Fail(h) ELSE Page(h, "recoverEnd")
+    [] k = "otpLogin" -> open("otp", "otpLogin")
+    [] k \in {"otpAdd", "otpClear"} ->
+         IF ~Has(c, "otp") THEN RouteMissing(h)
+         ELSE IF ~AuthMW(h, FALSE, FALSE).ok THEN Refuse(h, c) ELSE Page(h, k)
+    [] k = "totpConfirm" -> guarded("totp", "totp", "totpConfirm", TRUE)
+    [] k = "totpRemove" -> guarded("totp", NONE, "totpRemove", FALSE)
+    [] k = "totpValidate" -> open("totp", "totpValidate")
+    [] k = "smsConfirm" -> guarded("sms", "sms", "smsConfirm", FALSE)
+    [] k = "smsRemove" -> guarded("sms", NONE, "smsRemove", FALSE)
+    [] k = "smsValidate" -> open("sms", "smsValidate")
+    [] k = "recoveryRegen" -> guarded("recovery", NONE, "recovery2fa", FALSE)
+    [] k \in {"totpEmailVerify", "smsEmailVerify"} ->
+         LET kind == IF k = "totpEmailVerify" THEN "totp" ELSE "sms" IN
+         IF ~c.emailAuth \/ ~Has(c, kind) THEN RouteMissing(h) ELSE guarded(kind, NONE, "tfaVerify", FALSE)
+    [] OTHER -> RouteMissing(h)
+
+GetKeys == {"login", "register", "recover", "recoverEnd", "otpLogin", "otpAdd", "otpClear", "totpConfirm", "totpRemove",
+            "totpValidate", "smsConfirm", "smsRemove", "smsValidate", "recoveryRegen", "totpEmailVerify", "smsEmailVerify"}
+
 \* lock.Middleware -> confirm.Middleware used on their own: they load the session user themselves
 \* and, as documented, panic when there is none to load
 BareProbe(h, c, e) ==
@@ -571,12 +608,13 @@ Dispatch(h, c, e) ==
     [] e.act = "RecoveryRegen" -> RecoveryRegen(h, c, e)
     [] e.act = "EmailVerifyStart" -> EmailVerifyStart(h, c, e)
     [] e.act = "EmailVerifyEnd" -> EmailVerifyEnd(h, c, e)
+    [] e.act = "Get"          -> GetPage(h, c, e)
 
 RequestActs == {"LoginPost", "Logout", "RegisterPost", "ConfirmGet", "RecoverStart",
                 "RecoverEnd", "Probe", "OtpLoginPost", "OtpAdd", "OtpClear", "OAuthStart",
                 "OAuthCallback", "TotpSetup", "TotpSetupGet", "TotpConfirm", "TotpRemove",
                 "TotpValidate", "SmsSetup", "SmsSetupGet", "SmsConfirm", "SmsRemove",
-                "SmsValidate", "RecoveryRegen", "EmailVerifyStart", "EmailVerifyEnd"}
+                "SmsValidate", "RecoveryRegen", "EmailVerifyStart", "EmailVerifyEnd", "Get"}
 
 \* global middleware chain in front of every route
 Prelude(S, c, b) ==
